@@ -334,13 +334,24 @@ func cmdCheck(args []string) int {
 		fmt.Printf("VIOLATION property=%s replay=%s obligation=%s:binding no-failing-input-found\n", ps.ID, path, name)
 		exit = 1
 	}
-	if len(vacuous) > 0 {
-		for _, o := range vacuous {
-			fmt.Fprintf(os.Stderr, "govc: VACUITY: %s is unsatisfiable (contradictory preconditions or unreachable contract point)\n", o.Name)
+	// Vacuity guard. Contradictory preconditions are a defect of the contract
+	// itself (infrastructure failure). A return or loop body that the solver
+	// proves unreachable under the contract's assumptions means the code and
+	// the assumed contracts contradict each other: the proof no longer says
+	// anything about that code, which is reported as a violation without a
+	// failing input.
+	for _, o := range vacuous {
+		if strings.HasSuffix(o.Name, ":cover:requires") {
+			fmt.Fprintf(os.Stderr, "govc: VACUITY: %s: contradictory preconditions; nothing reported by this run can be believed\n", o.Name)
+			writeEvidence(*verif, ps, *tier, seed, nObl, nDis, nCover, funcsUnderContract, bySolver, samples, vcs, float64(solverMs)/1000, time.Since(start).Seconds(), violations, known, loadMs, genMs, solveWall, true)
+			return 2
 		}
-		fmt.Fprintln(os.Stderr, "govc: vacuity guard failed; nothing reported by this run can be believed")
-		writeEvidence(*verif, ps, *tier, seed, nObl, nDis, nCover, funcsUnderContract, bySolver, samples, vcs, float64(solverMs)/1000, time.Since(start).Seconds(), violations, known, loadMs, genMs, solveWall, true)
-		return 2
+		o.Src = "reachability of this contract point (proved unreachable: the code contradicts the assumed contracts, so obligations behind it hold vacuously)"
+		if isKnown(o.Name) != nil {
+			known = append(known, o)
+		} else {
+			failed = append(failed, o)
+		}
 	}
 	for _, o := range failed {
 		violations++
